@@ -562,6 +562,16 @@ class CacheWorld(object):
         self.lag_changed = True
       self.settings.MIN_TIMESTAMP_LAG = op[1]
       self.ctx.probe('lag_changed_at_run_time')
+    elif k == 'stop_at_wstep':
+      # stop injected exactly when the writer thread has executed op[1] more lines
+      s = self.s
+      s.trigger_fired = False
+      s.trigger = ('W', s.tsteps.get('W', 0) + op[1], 'R')
+      limit = s.now + 600.0
+      s.block_until(lambda: s.trigger_fired or not s.alive('W') or s.now > limit, 'wstep-trigger')
+      s.trigger = None
+      self.ctx.probe('stop_at_enumerated_writer_line')
+      self.do_stop()
     elif k == 'stop':
       self.do_stop()
     elif k == 'wstart':
@@ -939,6 +949,7 @@ class CacheWorld(object):
       if self.stopping:
         break
     self.start_writer()
+    self.w_steps_at_ops_end = self.s.tsteps.get('W', 0)
     if not self.stopping:
       if self.wmode == 'writer':
         self.quiesce()
@@ -976,6 +987,8 @@ class CacheWorld(object):
     finally:
       self.finish_cb(reason, {'sim_seconds': self.s.now - 1000000.0,
                               'db_calls': self.w.db.ncalls, 'drains': self.ndrains,
+                              'w_steps_after_ops': self.s.tsteps.get('W', 0) -
+                              getattr(self, 'w_steps_at_ops_end', 0),
                               'strategy': self.strategy})
 
 
